@@ -767,6 +767,81 @@ def _upgrade_sources(prog):
     return None, f"sources {[fmt(x)[:40] for x in pr]}"
 
 
+def _guarded_missing_keys(ctx, prog, f, r) -> bool:
+    """the upgrade without merge_dicts: the loaded settings are updated with
+    (key, default) for exactly the keys of the defaults that they lack, and
+    written when there is such a key.  Skipping the write when *no key is
+    missing* is sound; a comparison of the two dictionaries' sizes is not (a
+    file with obsolete extra keys is as long as the template and still lacks
+    the new ones).  True if the idiom was recognised and judged."""
+    def defaults(x: T) -> bool:
+        while x.op == "named":
+            x = T("global", x.args[0])
+        return x.op == "global" and x.args[0].endswith(
+            "DEFAULT_SETTINGS_DICT")
+
+    def loaded(x: T) -> bool:
+        return any(is_call_to(y, "json.loads", "json.load") for y in x.walk())
+    wr = [e for e in r.of_kind("call")
+          if (e.data.get("name") or "").endswith("write_to_json_file")]
+    if len(wr) != 1:
+        return False
+    d = (wr[0].data["bound"] or {}).get("dictionary")
+    if d is None or not (d.op == "mut" and d.args[1] == "update" and
+                         len(d.args[2]) == 1 and loaded(d.args[0])):
+        return False
+    arg = Interp.unname(d.args[2][0])
+    if not (arg.op == "comp" and len(arg.args[2]) == 1 and not arg.args[3]):
+        return False
+    K, lid = arg.args[2][0]
+    el = T("elem", K, lid)
+    pair = arg.args[1]
+    ok_pair = pair.op == "tuple" and len(pair.args) == 2 and \
+        pair.args[0] is el and pair.args[1].op == "sub" and \
+        defaults(pair.args[1].args[0]) and pair.args[1].args[1] is el
+    Ku = Interp.unname(K)
+    ok_keys = Ku.op == "binop" and Ku.args[0] == "Sub" and \
+        is_call_to(Ku.args[1], ".keys") and \
+        defaults(tm.method_recv(Ku.args[1])) and \
+        is_call_to(Ku.args[2], ".keys") and loaded(tm.method_recv(Ku.args[2]))
+    ok = ok_pair and ok_keys
+    ctx.ob("C18.4", wr[0], ok,
+           "upgrade: the loaded settings get (key, default) for exactly the "
+           "keys of the defaults they lack" if ok else
+           f"upgrade: the loaded settings are updated with {fmt(arg)[:100]}",
+           key="C18.4:upgrade-call")
+    ctx.ob("C18.4", wr[0], ok, "upgrade: only absent keys are added (user "
+           "values untouched)", key="C18.4:soft-merge", nontrivial=False)
+    # when is the write skipped?
+    import re as _re
+    ats = [a for a in tm.atoms(wr[0].live) if a.op != "exc" and not any(
+        (x.op in ("global", "named") and
+         str(x.args[0]).endswith("__version__")) or
+        (tm.is_const(x) and isinstance(x.args[1], str) and
+         _re.fullmatch(r"v?\d+\.\d+(\.\w+)*", x.args[1]))
+        for x in a.walk())]
+    sizes = [a for a in ats if a.op == "cmp" and sum(
+        1 for x in (a.args[1], a.args[2]) if is_call_to(x, "builtins.len"))
+        == 2]
+    nokeys = [a for a in ats if a is K or Interp.unname(a) is Ku or (
+        a.op == "cmp" and any(x is K for x in a.walk()))]
+    rest = [a for a in ats if a not in sizes and a not in nokeys]
+    if sizes:
+        ctx.ob("C18.4", wr[0], False,
+               f"upgrade: the merged settings are written only when "
+               f"{fmt(sizes[0])[:80]} — a settings file with obsolete or "
+               f"foreign keys is as long as the template and never gets the "
+               f"new default keys", key="C18.4:upgrade-written")
+    elif rest:
+        ctx.undecidable("C18.4", wr[0], f"upgrade: write of the settings "
+                        f"depends on {fmt(rest[0])[:80]}")
+    else:
+        ctx.ob("C18.4", wr[0], True,
+               "upgrade: the updated settings are written whenever a default "
+               "key is missing", key="C18.4:upgrade-written")
+    return True
+
+
 def _upgrade(ctx, prog):
     f = prog.func(ST + "update_if_outdated")
     g0 = prog.func(ST + "merge_dicts")
@@ -786,7 +861,29 @@ def _upgrade(ctx, prog):
                        "values first)" if v else why, key=f"C18.4:{key}")
         return
     r = Interp(prog).run(f)
+    # whatever the merge idiom: a decision taken on the *sizes* of the loaded
+    # settings and of the defaults says nothing about missing keys
+    for e in r.of_kind("call"):
+        if not (e.data.get("name") or "").endswith("write_to_json_file"):
+            continue
+        for a in tm.atoms(e.live):
+            if a.op == "cmp" and all(
+                    is_call_to(x, "builtins.len") for x in
+                    (a.args[1], a.args[2])):
+                srcs = [fmt(x) for x in (a.args[1], a.args[2])]
+                if any("json.load" in s_ for s_ in srcs) and any(
+                        "DEFAULT_SETTINGS" in s_ for s_ in srcs):
+                    ctx.ob("C18.4", e, False,
+                           f"upgrade: the settings are only completed / "
+                           f"written when {fmt(a)[:90]} — a settings file "
+                           f"with obsolete or foreign keys is as long as "
+                           f"the template and never gets the new default "
+                           f"keys", key="C18.4:upgrade-written")
     m = r.calls(ST + "merge_dicts")
+    if not m:
+        gm = _guarded_missing_keys(ctx, prog, f, r)
+        ctx.require(gm, "update_if_outdated: merge_dicts call not found")
+        return
     ctx.require(len(m) == 1, "update_if_outdated: merge_dicts call not found")
     b = m[0].data["bound"]
     first, second, soft = b.get("first"), b.get("second"), b.get("soft")
